@@ -211,6 +211,8 @@ def real_rows(h, r):
 
 
 def model_rows(m, fin):
+    """m = Sched.run_case output: [known flags; section codes of the trace] ++ enc_config"""
+    m = m[2:]
     head = [m[0], m[1], m[2], sorted(m[3])]
     rows = []
     for x in m[4:]:
